@@ -203,7 +203,89 @@ let cmd_finalize (req : json) : json =
   let ((b, s), u) = finalize (to_n (field req "default")) banks sb in
   Obj [ ("banks", jlist jn b); ("seg_banks", jlist (jopt jn) s); ("unassigned", jlist jnat u) ]
 
-let handlers : (string * (json -> json)) list ref = ref [ ("encode", cmd_encode); ("layout", cmd_layout); ("finalize", cmd_finalize) ]
+(* ---------- C03 ---------- *)
+let all_ops = all_binops
+let op_names = [ "+"; "-"; "*"; "/"; "%"; "<<"; ">>"; "^"; "=="; "!="; ">"; ">="; "<"; "<="; "&&"; "||" ]
+let op_name (o : binop) : string =
+  let rec go l n = match l, n with x :: r, s :: t -> if x = o then s else go r t | _ -> "?" in go all_ops op_names
+let op_of_name (s : string) : binop =
+  let rec go l n = match l, n with x :: r, t :: u -> if t = s then x else go r u | _ -> failwith ("bad op " ^ s) in go all_ops op_names
+let jmod = function None -> Null | Some LowByte -> Str "<" | Some HighByte -> Str ">"
+let rec jexpr (e : expr) : json =
+  match e with
+  | EBin (op, l, r) -> Arr [ Str "bin"; Str (op_name op); jexpr l; jexpr r ]
+  | ENum (radix, d, a, b) -> Arr [ Str "num"; jz radix; jtext d; Bool a; Bool b ]
+  | EId (p, m, a, b) -> Arr [ Str "id"; jlist jtext p; jmod m; Bool a; Bool b ]
+  | EPc (a, b) -> Arr [ Str "pc"; Bool a; Bool b ]
+  | EParens (i, a, b) -> Arr [ Str "parens"; jexpr i; Bool a; Bool b ]
+  | ECall (n, args, a, b) -> Arr [ Str "call"; jtext n; jlist jexpr args; Bool a; Bool b ]
+  | EStr (items, a, b) ->
+    Arr [ Str "str"; jlist (function SLit s -> Arr [ Str "lit"; jtext s ] | SPath p -> Arr [ Str "path"; jlist jtext p ]) items; Bool a; Bool b ]
+let rec expr_of (j : json) : expr =
+  match j with
+  | Arr [ Str "bin"; Str op; l; r ] -> EBin (op_of_name op, expr_of l, expr_of r)
+  | Arr [ Str "num"; radix; d; a; b ] -> ENum (to_z radix, text_of d, to_bool a, to_bool b)
+  | Arr [ Str "id"; p; m; a; b ] ->
+    EId (List.map text_of (to_list p), (match m with Str "<" -> Some LowByte | Str ">" -> Some HighByte | _ -> None), to_bool a, to_bool b)
+  | Arr [ Str "pc"; a; b ] -> EPc (to_bool a, to_bool b)
+  | Arr [ Str "parens"; i; a; b ] -> EParens (expr_of i, to_bool a, to_bool b)
+  | Arr [ Str "call"; n; args; a; b ] -> ECall (text_of n, List.map expr_of (to_list args), to_bool a, to_bool b)
+  | Arr [ Str "str"; items; a; b ] ->
+    EStr (List.map (function Arr [ Str "lit"; s ] -> SLit (text_of s) | Arr [ Str "path"; p ] -> SPath (List.map text_of (to_list p)) | _ -> failwith "item") (to_list items),
+          to_bool a, to_bool b)
+  | _ -> failwith "bad expr json"
+
+(* env: {"syms": [[path(list of texts), ["num", z] | ["str", text] | ["placeholder"] | ["macro"]], ...], "pc": z|null} *)
+let env_of (j : json) : env =
+  let syms = List.map (fun e -> match e with
+      | Arr [ p; v ] ->
+        (List.map text_of (to_list p),
+         (match v with
+          | Arr [ Str "num"; z ] -> DNum (to_z z)
+          | Arr [ Str "str"; s ] -> DStr (text_of s)
+          | Arr [ Str "placeholder" ] -> DPlaceholder
+          | _ -> DMacro))
+      | _ -> failwith "bad sym") (to_list (field j "syms")) in
+  { lookup = (fun p -> List.assoc_opt p syms); cur_pc = to_opt to_z (field j "pc") }
+let jsval = function SNum z -> Arr [ Str "num"; jz z ] | SStr s -> Arr [ Str "str"; jtext s ]
+let jeres = function
+  | EVal None -> Obj [ ("r", Str "none") ]
+  | EVal (Some v) -> Obj [ ("r", Str "val"); ("v", jsval v) ]
+  | EErr _ -> Obj [ ("r", Str "err") ]
+  | EPanic -> Obj [ ("r", Str "panic") ]
+
+let cmd_parse_expr (req : json) : json =
+  let s = text_of (field req "text") in
+  match parse_expression s with
+  | Some (e, rest) -> Obj [ ("ok", Bool true); ("ast", jexpr e); ("consumed", jint (List.length s - List.length rest)) ]
+  | None -> Obj [ ("ok", Bool false) ]
+
+let cmd_eval_expr (req : json) : json =
+  let en = env_of (field req "env") in
+  let e = match field req "ast" with
+    | Null -> (match parse_expression (text_of (field req "text")) with
+               | Some (e, rest) -> if ws rest = [] then Some e else None   (* the statement parser rejects leftovers *)
+               | None -> None)
+    | j -> Some (expr_of j) in
+  match e with
+  | None -> Obj [ ("r", Str "noparse") ]
+  | Some e ->
+    let r = eval en e in
+    let size = to_int (field req "size") in
+    let bytes = match r with EVal (Some (SNum z)) when size > 0 -> jlist jn (emit_data (nat_of_int size) z) | _ -> Null in
+    (match jeres r with Obj l -> Obj (l @ [ ("bytes", bytes) ]) | j -> j)
+
+(* spec: sem over Z for a tree of the numeric sublanguage; identifiers bound by the env's numbers *)
+let cmd_sem_expr (req : json) : json =
+  let en = env_of (field req "env") in
+  let num p = match en.lookup p with Some (DNum z) -> z | _ -> Z0 in
+  let pc = match en.cur_pc with Some p -> p | None -> Z0 in
+  let v = sem num pc (expr_of (field req "ast")) in
+  let size = to_int (field req "size") in
+  Obj [ ("v", jz v); ("bytes", jlist jn (spec_le_bytes (nat_of_int size) (Z.modulo v (Z.pow (z_of_small 2) (z_of_small (8 * size)))))) ]
+
+let handlers : (string * (json -> json)) list ref = ref [ ("encode", cmd_encode); ("layout", cmd_layout); ("finalize", cmd_finalize);
+    ("parse_expr", cmd_parse_expr); ("eval_expr", cmd_eval_expr); ("sem_expr", cmd_sem_expr) ]
 
 let () =
   (try
